@@ -301,6 +301,8 @@ for _p in ("C10", "C11", "C12"):
     PROPS[_p]["jobs"] = PROPS[_p]["jobs"] + [dict(j) for j in _SEQWRAP]
     PROPS[_p]["assumptions"] = PROPS[_p]["assumptions"] + ["seqwrap jobs: the ring's sequence numbers are preset through reflection to just below 2^8, 2^16, 2^31, 2^32 (the state after that many messages), then a backlog smaller than the ring is written and drained on the real runtime"]
 PROPS["C10"]["assumptions"] = PROPS["C10"]["assumptions"] + ["real-runtime jobs (native and GOARCH=386): only the interleavings the Go scheduler happens to produce; they add the platform dimension (32-bit alignment and int width), not schedule coverage"]
+PROPS["C10"]["jobs"] = PROPS["C10"]["jobs"] + [{"name": "stdlog", "pkg": "./c10rt", "run": "^TestStdLogProducers$", "timeout": T(600, 600)},
+                                               {"name": "stdlog-386", "pkg": "./c10rt", "goarch": "386", "run": "^TestStdLogProducers$", "timeout": T(600, 600), "thorough_only": True}]
 PROPS["C11"]["jobs"] = PROPS["C11"]["jobs"] + [{"name": "fatal-path", "pkg": "./c11", "run": "^TestFatalDrains$", "timeout": T(600, 600)}]
 
 # ---- 32-bit builds (GOARCH=386, run on this machine): alignment of 64-bit atomics and the width of int/uint
